@@ -369,9 +369,15 @@ def dominated_by_edges(body, edges, block):
     if block not in body.cfg.reachable_from([0], avoid_edges=edges):
         return True
     ext = extend_edges(body, edges)
-    if len(ext) == len(set(edges)):
-        return False
-    return block not in body.cfg.reachable_from([0], avoid_edges=ext)
+    if len(ext) != len(set(edges)) and block not in body.cfg.reachable_from([0], avoid_edges=ext):
+        return True
+    # feasible paths only (variant of Result/Option temporaries tracked; see mirutil.feasible_reach)
+    from .mirutil import feasible_reach
+    key = (frozenset(ext), block)
+    cache = body.__dict__.setdefault("_fdbe", {})
+    if key not in cache:
+        cache[key] = block not in feasible_reach(body, [0], avoid_edges=ext)
+    return cache[key]
 
 
 def bool_place_edges(body, place_pred):
